@@ -1,0 +1,273 @@
+//go:build verif
+// +build verif
+
+package tea
+
+// This file is only compiled with the build tag "verif". It exposes unexported
+// parts of the package to the external verification harness. It only forwards
+// to existing code and never changes behaviour.
+
+import (
+	"context"
+	"fmt"
+	"io"
+	"sort"
+	"strings"
+	"sync"
+	"time"
+)
+
+// VerifDetectOneMsg forwards to detectOneMsg.
+func VerifDetectOneMsg(b []byte, canHaveMoreData bool) (int, Msg) {
+	return detectOneMsg(b, canHaveMoreData)
+}
+
+// VerifReadAnsiInputs forwards to readAnsiInputs.
+func VerifReadAnsiInputs(ctx context.Context, msgs chan<- Msg, input io.Reader) error {
+	return readAnsiInputs(ctx, msgs, input)
+}
+
+// VerifParseX10MouseEvent forwards to parseX10MouseEvent.
+func VerifParseX10MouseEvent(buf []byte) MouseEvent { return parseX10MouseEvent(buf) }
+
+// VerifParseSGRMouseEvent forwards to parseSGRMouseEvent.
+func VerifParseSGRMouseEvent(buf []byte) MouseEvent { return parseSGRMouseEvent(buf) }
+
+// VerifKeyEntry is one entry of a key table.
+type VerifKeyEntry struct {
+	Seq string
+	Key Key
+}
+
+func verifSortedTable(m map[string]Key) []VerifKeyEntry {
+	out := make([]VerifKeyEntry, 0, len(m))
+	for s, k := range m {
+		out = append(out, VerifKeyEntry{Seq: s, Key: k})
+	}
+	sort.Slice(out, func(i, j int) bool { return out[i].Seq < out[j].Seq })
+	return out
+}
+
+// VerifSequences returns the documented key table, sorted by sequence.
+func VerifSequences() []VerifKeyEntry { return verifSortedTable(sequences) }
+
+// VerifExtSequences returns the extended key table, sorted by sequence.
+func VerifExtSequences() []VerifKeyEntry { return verifSortedTable(extSequences) }
+
+// VerifSeqLengths returns a copy of seqLengths.
+func VerifSeqLengths() []int { return append([]int(nil), seqLengths...) }
+
+// VerifKeyNames returns a copy of keyNames.
+func VerifKeyNames() map[KeyType]string {
+	out := map[KeyType]string{}
+	for k, v := range keyNames {
+		out[k] = v
+	}
+	return out
+}
+
+// VerifConsts returns renderer constants.
+func VerifConsts() (defFPS, mxFPS int) { return defaultFPS, maxFPS }
+
+// VerifFramerate returns the frame interval newRenderer computes for fps.
+func VerifFramerate(fps int) time.Duration {
+	r := newRenderer(io.Discard, false, fps).(*standardRenderer)
+	return r.framerate
+}
+
+// VerifDescribeMsg gives a canonical, type-tagged description of a message,
+// including the unexported message types.
+func VerifDescribeMsg(m Msg) string {
+	switch v := m.(type) {
+	case nil:
+		return "nil"
+	case KeyMsg:
+		rs := make([]string, len(v.Runes))
+		for i, r := range v.Runes {
+			rs[i] = fmt.Sprintf("%d", r)
+		}
+		return fmt.Sprintf("key type=%d alt=%t paste=%t runes=[%s]", int(v.Type), v.Alt, v.Paste, strings.Join(rs, ","))
+	case MouseMsg:
+		return fmt.Sprintf("mouse x=%d y=%d shift=%t alt=%t ctrl=%t action=%d button=%d type=%d",
+			v.X, v.Y, v.Shift, v.Alt, v.Ctrl, int(v.Action), int(v.Button), int(v.Type))
+	case FocusMsg:
+		return "focus"
+	case BlurMsg:
+		return "blur"
+	case unknownInputByteMsg:
+		return fmt.Sprintf("unknownbyte %d", int(byte(v)))
+	case unknownCSISequenceMsg:
+		bs := make([]string, len(v))
+		for i, b := range v {
+			bs[i] = fmt.Sprintf("%d", b)
+		}
+		return fmt.Sprintf("unknowncsi [%s]", strings.Join(bs, ","))
+	case QuitMsg:
+		return "quit"
+	case InterruptMsg:
+		return "interrupt"
+	case SuspendMsg:
+		return "suspend"
+	case ResumeMsg:
+		return "resume"
+	case WindowSizeMsg:
+		return fmt.Sprintf("windowsize %d %d", v.Width, v.Height)
+	case BatchMsg:
+		return fmt.Sprintf("batch %d", len(v))
+	case sequenceMsg:
+		return fmt.Sprintf("sequence %d", len(v))
+	case execMsg:
+		return "exec"
+	case printLineMessage:
+		return fmt.Sprintf("printline %q", v.messageBody)
+	case repaintMsg:
+		return "repaint"
+	case clearScreenMsg:
+		return "clearscreen"
+	case enterAltScreenMsg:
+		return "enteraltscreen"
+	case exitAltScreenMsg:
+		return "exitaltscreen"
+	case enableMouseCellMotionMsg:
+		return "enablemousecellmotion"
+	case enableMouseAllMotionMsg:
+		return "enablemouseallmotion"
+	case disableMouseMsg:
+		return "disablemouse"
+	case showCursorMsg:
+		return "showcursor"
+	case hideCursorMsg:
+		return "hidecursor"
+	case enableBracketedPasteMsg:
+		return "enablebracketedpaste"
+	case disableBracketedPasteMsg:
+		return "disablebracketedpaste"
+	case enableReportFocusMsg:
+		return "enablereportfocus"
+	case disableReportFocusMsg:
+		return "disablereportfocus"
+	case setWindowTitleMsg:
+		return fmt.Sprintf("setwindowtitle %q", string(v))
+	case windowSizeMsg:
+		return "windowsizereq"
+	default:
+		return fmt.Sprintf("other %T", m)
+	}
+}
+
+// VerifSequenceCmds returns the commands of a sequenceMsg.
+func VerifSequenceCmds(m Msg) ([]Cmd, bool) {
+	s, ok := m.(sequenceMsg)
+	return []Cmd(s), ok
+}
+
+// VerifRepaintMsg returns the internal repaint message.
+func VerifRepaintMsg() Msg { return repaintMsg{} }
+
+// VerifPrintLineMsg returns the internal print-line message.
+func VerifPrintLineMsg(body string) Msg { return printLineMessage{messageBody: body} }
+
+// VerifCtx returns the program's context.
+func VerifCtx(p *Program) context.Context { return p.ctx }
+
+// VerifRenderer is a handle on a standardRenderer whose ticker goroutine is
+// never started: flush happens exactly when the harness asks for it.
+type VerifRenderer struct {
+	r *standardRenderer
+}
+
+// VerifNewRenderer creates a standard renderer writing to out.
+func VerifNewRenderer(out io.Writer, fps int) *VerifRenderer {
+	return &VerifRenderer{r: newRenderer(out, false, fps).(*standardRenderer)}
+}
+
+// VerifProgramRenderer returns a handle on the renderer of a program (nil
+// if it is not the standard renderer).
+func VerifProgramRenderer(p *Program) *VerifRenderer {
+	if r, ok := p.renderer.(*standardRenderer); ok {
+		return &VerifRenderer{r: r}
+	}
+	return nil
+}
+
+// consumeOnce makes the pending once already done, so that stop/kill do not
+// try to hand a token to a listen goroutine that was never started.
+func (v *VerifRenderer) consumeOnce() { v.r.once.Do(func() {}) }
+
+func (v *VerifRenderer) Write(s string)         { v.r.write(s) }
+func (v *VerifRenderer) Flush()                 { v.r.flush() }
+func (v *VerifRenderer) Repaint()               { v.r.mtx.Lock(); v.r.repaint(); v.r.mtx.Unlock() }
+func (v *VerifRenderer) ClearScreen()           { v.r.clearScreen() }
+func (v *VerifRenderer) EnterAltScreen()        { v.r.enterAltScreen() }
+func (v *VerifRenderer) ExitAltScreen()         { v.r.exitAltScreen() }
+func (v *VerifRenderer) ShowCursor()            { v.r.showCursor() }
+func (v *VerifRenderer) HideCursor()            { v.r.hideCursor() }
+func (v *VerifRenderer) EnableMouseCellMotion() { v.r.enableMouseCellMotion() }
+func (v *VerifRenderer) DisableMouseCellMotion() {
+	v.r.disableMouseCellMotion()
+}
+func (v *VerifRenderer) EnableMouseAllMotion()  { v.r.enableMouseAllMotion() }
+func (v *VerifRenderer) DisableMouseAllMotion() { v.r.disableMouseAllMotion() }
+func (v *VerifRenderer) EnableMouseSGRMode()    { v.r.enableMouseSGRMode() }
+func (v *VerifRenderer) DisableMouseSGRMode()   { v.r.disableMouseSGRMode() }
+func (v *VerifRenderer) EnableBracketedPaste()  { v.r.enableBracketedPaste() }
+func (v *VerifRenderer) DisableBracketedPaste() { v.r.disableBracketedPaste() }
+func (v *VerifRenderer) EnableReportFocus()     { v.r.enableReportFocus() }
+func (v *VerifRenderer) DisableReportFocus()    { v.r.disableReportFocus() }
+func (v *VerifRenderer) SetWindowTitle(s string) {
+	v.r.setWindowTitle(s)
+}
+func (v *VerifRenderer) HandleMessages(m Msg) { v.r.handleMessages(m) }
+
+// Stop runs stop() without the ticker handshake.
+func (v *VerifRenderer) Stop() { v.consumeOnce(); v.r.stop() }
+
+// Kill runs kill() without the ticker handshake.
+func (v *VerifRenderer) Kill() { v.consumeOnce(); v.r.kill() }
+
+// Rearm does the part of start() that does not create goroutines or tickers.
+func (v *VerifRenderer) Rearm() { v.r.once = sync.Once{} }
+
+// VerifRendererState is a snapshot of the renderer's bookkeeping.
+type VerifRendererState struct {
+	Buf               string
+	Queued            []string
+	LastRender        string
+	LastRenderedLines []string
+	LastLinesNil      bool
+	LinesRendered     int
+	AltLinesRendered  int
+	CursorHidden      bool
+	AltScreenActive   bool
+	BpActive          bool
+	ReportingFocus    bool
+	Width             int
+	Height            int
+	Framerate         time.Duration
+}
+
+// State returns a snapshot of the renderer's bookkeeping.
+func (v *VerifRenderer) State() VerifRendererState {
+	r := v.r
+	r.mtx.Lock()
+	defer r.mtx.Unlock()
+	return VerifRendererState{
+		Buf:               r.buf.String(),
+		Queued:            append([]string(nil), r.queuedMessageLines...),
+		LastRender:        r.lastRender,
+		LastRenderedLines: append([]string(nil), r.lastRenderedLines...),
+		LastLinesNil:      r.lastRenderedLines == nil,
+		LinesRendered:     r.linesRendered,
+		AltLinesRendered:  r.altLinesRendered,
+		CursorHidden:      r.cursorHidden,
+		AltScreenActive:   r.altScreenActive,
+		BpActive:          r.bpActive,
+		ReportingFocus:    r.reportingFocus,
+		Width:             r.width,
+		Height:            r.height,
+		Framerate:         r.framerate,
+	}
+}
+
+// VerifProgramRestoreTerminalState forwards to restoreTerminalState.
+func VerifProgramRestoreTerminalState(p *Program) error { return p.restoreTerminalState() }
